@@ -177,6 +177,7 @@ def run(ctx):
                 for pk in pick:
                     etree.SubElement(d, "{%s}x%d" % (xsdgen.TNS, pk)).text = "v"
                 check_doc(ctx, res, case, d, case.model_type(3), "nested-choice", pending, compare_calls=True)
+    reply_family(ctx, res)
     # model: exact equality of the number of decode calls (and of outcomes / values where comparable)
     if ctx.model and pending:
         outs = ctx.model.run([p[0] for p in pending])
@@ -196,9 +197,74 @@ def run(ctx):
     res.rule = ("generated core and WIDE schemas (groups with any bounds, wildcards) x valid documents and mutations (insert / delete / duplicate / "
                 "reorder / soup of copied elements); repeating sequences / choices whose content can match empty (unbounded, 10^8, 3) x documents with "
                 "foreign or reordered leftovers; the xsd:group family (unbounded, 10^8, bounded) x documents with a foreign tail; choices nested "
-                "3 / 8 / 14 deep with and without repetition; every document in both modes, work counted in interpreter call events against a budget "
+                "3 / 8 / 14 deep with and without repetition; whole replies through the client (rpc/encoded multiRef graphs: chain, self cycle, tail "
+                "pointing back, mutual, dangling, fan-out; SOAP 1.2 faults with 60 nested subcodes, Subcodes without / with empty Value, siblings, "
+                "unbound prefixes) under a flat event budget - a cyclic multiRef graph ends with RecursionError, which counts as an error after "
+                "bounded work; every document in both modes, work counted in interpreter call events against a budget "
                 "and in decode calls against the model. distinct = distinct (schema, document, mode)")
     return res
+
+
+def reply_family(ctx, res):
+    """whole replies through client.service.<op>(): the work done before and around the schema decoder (multiRef
+    dereferencing of rpc/encoded replies, the fault field extraction) must end as well, whatever the reply looks like"""
+    from . import c19, c06
+    ENV11 = c19.ENV
+    rpc = c19.make_client()
+
+    def env11(result_inner, multirefs=""):
+        return ('<e:Envelope xmlns:e="%s"><e:Body><r:getResponse xmlns:r="urn:rpc">%s</r:getResponse>%s</e:Body></e:Envelope>' % (ENV11, result_inner, multirefs)).encode()
+    leaf = "<s>s</s><n>1</n>"
+    mid = "<leaf>%s</leaf><tag>t</tag>" % leaf
+    replies = [
+        ("multiref-acyclic-chain", env11('<result href="#id0"/>', '<multiRef id="id0"><a href="#id1"/><b href="#id2"/><c>c</c></multiRef>'
+                                         '<multiRef id="id1">%s</multiRef><multiRef id="id2">%s</multiRef>' % (mid, leaf))),
+        ("multiref-self-cycle", env11('<result href="#id0"/>', '<multiRef id="id0"><a href="#id0"/><b>%s</b><c>c</c></multiRef>' % leaf)),
+        ("multiref-tail-points-back", env11('<result href="#id0"/>', '<multiRef id="id0"><a href="#id1"/><b>%s</b><c>c</c></multiRef>'
+                                            '<multiRef id="id1"><leaf href="#id2"/><tag>t</tag></multiRef><multiRef id="id2"><s>s</s><n>1</n><deep href="#id1"/></multiRef>' % leaf)),
+        ("multiref-mutual", env11('<result><a href="#id1"/><b href="#id2"/><c>c</c></result>',
+                                  '<multiRef id="id1"><leaf href="#id2"/><tag>t</tag></multiRef><multiRef id="id2"><s>s</s><n>1</n><deep href="#id1"/></multiRef>')),
+        ("multiref-dangling", env11('<result href="#nowhere"/>', '<multiRef id="id0">%s</multiRef>' % leaf)),
+        ("multiref-fanout", env11('<result><a href="#id1"/><b>%s</b><c>c</c><d href="#id1"/></result>' % leaf,
+                                  '<multiRef id="id1"><leaf href="#id2"/><tag>t</tag>%s</multiRef><multiRef id="id2">%s</multiRef>' % ('<more href="#id2"/>' * 40, leaf))),
+    ]
+    for name, content in replies:
+        c19.Script.content, c19.Script.ctype = content, "text/xml"
+        budget = 2000000
+        outcome, events, v = enginea.budgeted(lambda: rpc.service.get("x"), budget)
+        res.case(key=("reply", name), nontrivial=True)
+        res.count("reply:" + name.split("-")[0])
+        res.count("reply-outcome:" + outcome)
+        if outcome == "BUDGET":
+            res.failures.append(dict(what="a %d byte reply kept the client busy for more than %d interpreter call events" % (len(content), budget),
+                                     case=dict(kind="reply", name=name, reply=content.decode())))
+    clients = {True: c06.make_client(True), False: c06.make_client(False)}
+    E12 = c06.ENV["1.2"]
+
+    def fault12(code_inner, status):
+        return status, ('<e:Envelope xmlns:e="%s" xmlns:s="urn:sub"><e:Body><e:Fault><e:Code><e:Value>e:Receiver</e:Value>%s</e:Code>'
+                        '<e:Reason><e:Text xml:lang="en">r</e:Text></e:Reason></e:Fault></e:Body></e:Envelope>' % (E12, code_inner)).encode()
+    sub = lambda inner, value="<e:Value>s:C</e:Value>": "<e:Subcode>%s%s</e:Subcode>" % (value, inner)   # noqa
+    deep = ""
+    for _ in range(60):
+        deep = sub(deep)
+    faults = [("subcode-chain-60", fault12(deep, 500)), ("subcode-without-value", fault12(sub(sub(""), value=""), 500)),
+              ("subcode-empty-value", fault12(sub("", value="<e:Value/>"), 500)), ("subcode-bare-200", fault12("<e:Subcode/>", 200)),
+              ("subcode-valueless-wrapper", fault12(sub(sub(sub("")), value=""), 400)),
+              ("subcode-unbound-prefix", fault12(sub("", value="<e:Value>zz:C</e:Value>"), 500)),
+              ("subcode-siblings", fault12(sub("") + sub("") + sub(""), 500)),
+              ("code-without-value", (500, ('<e:Envelope xmlns:e="%s"><e:Body><e:Fault><e:Code/><e:Reason/></e:Fault></e:Body></e:Envelope>' % E12).encode()))]
+    for name, (status, content) in faults:
+        for strict in (False, True):
+            c06.Script.status, c06.Script.ctype, c06.Script.content = status, "application/soap+xml; charset=utf-8", content
+            budget = 200000
+            outcome, events, v = enginea.budgeted(lambda: clients[strict].bind("svc", "p12").op("x"), budget)
+            res.case(key=("reply", name, strict), nontrivial=True)
+            res.count("reply:fault12")
+            res.count("reply-outcome:" + outcome)
+            if outcome == "BUDGET":
+                res.failures.append(dict(what="a %d byte fault reply kept the client busy for more than %d interpreter call events" % (len(content), budget),
+                                         case=dict(kind="reply", name=name, strict=strict, status=status, reply=content.decode())))
 
 
 def search(ctx):
@@ -208,6 +274,11 @@ def search(ctx):
 def replay(ctx, payload):
     c = payload.get("case", payload)
     src = None
+    if c.get("kind") == "reply":
+        r = Result()
+        reply_family(ctx, r)
+        bad = [f for f in r.failures if f["case"].get("name") == c.get("name")]
+        return (not bad), "reply family rerun: %d matching failures" % len(bad)
     if c.get("profile") == "group":
         return True, "group-family case: rerun ./check C08"
     if c.get("profile") in ("core", "wide"):
